@@ -727,3 +727,60 @@ pub fn par_cases<T: Send>(ctx: &jjv::Ctx, f: impl Fn(usize, jjv::Rng) -> T + Syn
     v.sort_by_key(|(i, _)| *i);
     v
 }
+
+// ------------------------------------------------------------------ observed file-system calls
+
+thread_local! {
+    static FS_CALLS: std::cell::RefCell<Option<Vec<(String, String)>>> = const { std::cell::RefCell::new(None) };
+}
+
+/// Registers the process-wide callback of jj_lib::verif: the `fs.*` points reached on a
+/// thread that is recording are appended to that thread's buffer (a checkout runs on the
+/// thread that called it).
+pub fn install_fs_trace() {
+    jj_lib::verif::set_callback(Some(std::sync::Arc::new(|kind: &str, detail: &str| {
+        if kind.starts_with("fs.") {
+            FS_CALLS.with(|b| {
+                if let Some(v) = b.borrow_mut().as_mut() {
+                    v.push((kind.to_string(), detail.to_string()));
+                }
+            });
+        }
+        jj_lib::verif::CONTINUE
+    })));
+}
+
+pub fn fs_trace_start() {
+    FS_CALLS.with(|b| *b.borrow_mut() = Some(vec![]));
+}
+
+/// Stops recording; returns (op code, path relative to `root`) per call. A path that is not
+/// below `root` is reported with the single component `<outside>`.
+pub fn fs_trace_stop(root: &Path) -> Vec<(u64, P)> {
+    let calls = FS_CALLS.with(|b| b.borrow_mut().take()).unwrap_or_default();
+    calls
+        .into_iter()
+        .map(|(kind, detail)| {
+            let code = match kind.as_str() {
+                "fs.create_dir" => 0,
+                "fs.remove_dir" => 1,
+                "fs.create_new" => 2,
+                "fs.write" => 3,
+                "fs.remove_file" => 4,
+                "fs.symlink" => 5,
+                "fs.lstat" => 6,
+                _ => 99,
+            };
+            let path = Path::new(&detail);
+            let rel = match path.strip_prefix(root) {
+                Ok(r) => r.components().map(|c| c.as_os_str().to_string_lossy().to_string()).collect(),
+                Err(_) => vec!["<outside>".to_string()],
+            };
+            (code, rel)
+        })
+        .collect()
+}
+
+pub fn coq_calls(calls: &[(u64, P)]) -> String {
+    jjv::coq::list(calls.iter(), |(c, p)| format!("({}, {})", c, coq_path(p)))
+}
